@@ -47,6 +47,21 @@ impl C17 {
     }
 }
 
+/// small non-zero whole numbers adding up to exactly zero (n >= 2)
+fn zero_sum_weights(r: &mut Rng, n: usize) -> Vec<f64> {
+    if n < 2 {
+        return vec![0.0; n];
+    }
+    loop {
+        let mut w: Vec<f64> = (0..n - 1).map(|_| (1 + r.usize(3)) as f64 * r.sign()).collect();
+        let s: f64 = w.iter().sum();
+        if s != 0.0 {
+            w.push(-s);
+            return w;
+        }
+    }
+}
+
 fn names(l: &[usize]) -> Vec<String> {
     l.iter().map(|i| POOL[*i].to_string()).collect()
 }
@@ -82,7 +97,7 @@ impl Prop for C17 {
         true
     }
     fn required_classes(&self, _tier: Tier) -> Vec<String> {
-        ["request==stored(fast-path)", "same-set-different-order", "request-subset-of-stored", "request-superset-of-stored", "partial-overlap", "disjoint", "product-rule"]
+        ["request==stored(fast-path)", "same-set-different-order", "request-subset-of-stored", "request-superset-of-stored", "partial-overlap", "disjoint", "product-rule", "product-rule:second-order-entries-cancel-to-zero", "stored:second-order-entries-cancel-to-zero"]
             .iter()
             .map(|s| s.to_string())
             .collect()
@@ -91,7 +106,7 @@ impl Prop for C17 {
         tier.pick(400_000, 10_000_000)
     }
     fn rule(&self) -> String {
-        "Complete enumeration of (every ordered stored variable list on a pool of 4 [quick] / 5 [thorough] names) x (every ordered requested list of distinct names on that pool plus 2 absent names): gradient1 on Dual and Dual2, gradient2 and gradient1_manifold on Dual2 compared entry by entry with a name-keyed lookup (0 for absent names); then seeded random Dual2 pairs for the manifold product rule grad(fg) = g grad f + f grad g against gradient2(f*g) and reference AD. distinct_nontrivial = distinct (stored list, requested list) pairs with a non-empty request, plus product-rule cases.".into()
+        "Complete enumeration of (every ordered stored variable list on a pool of 4 [quick] / 5 [thorough] names) x (every ordered requested list of distinct names on that pool plus 2 absent names): gradient1 on Dual and Dual2, gradient2 and gradient1_manifold on Dual2 compared entry by entry with a name-keyed lookup (0 for absent names); a third of the stored numbers and of the product-rule factors have second-order entries that cancel exactly when added up (k * w w' with the entries of w summing to zero, the Hessian of a function of a spread); then seeded random Dual2 pairs for the manifold product rule grad(fg) = g grad f + f grad g against gradient2(f*g) and reference AD. distinct_nontrivial = distinct (stored list, requested list) pairs with a non-empty request, plus product-rule cases.".into()
     }
     fn assumptions(&self) -> Vec<String> {
         vec!["requested lists contain distinct names (as the property states)".into(), "stored second-order coefficient matrices are symmetric (as every rateslib operation produces)".into()]
@@ -110,12 +125,17 @@ impl Prop for C17 {
             let n = stored.len();
             let g: Vec<f64> = (0..n).map(|_| if r2.chance(0.1) { 0.0 } else { r2.real() }).collect();
             let mut d2 = vec![0.0; n * n];
+            let w = zero_sum_weights(&mut r2, n);
+            let cancelling = n >= 2 && (idx / nr) % 3 == 2;
             for i in 0..n {
                 for j in i..n {
-                    let x = r2.real();
+                    let x = if cancelling { 0.75 * w[i] * w[j] } else { r2.real() };
                     d2[i * n + j] = x;
                     d2[j * n + i] = x;
                 }
+            }
+            if cancelling {
+                ctx.class("stored:second-order-entries-cancel-to-zero");
             }
             let v = r2.real();
             let sn = names(&stored);
@@ -233,9 +253,14 @@ impl Prop for C17 {
                 let g: Vec<f64> = (0..n).map(|_| rng.real()).collect();
                 let mut h = vec![vec![0.0; n]; n];
                 let mut d2 = vec![0.0; n * n];
+                // one in three: second-order entries that cancel exactly when added up (the Hessian of any function
+                // of a spread x - y looks like this: k * w w' with the entries of w summing to zero)
+                let w = zero_sum_weights(rng, n);
+                let cancelling = n >= 2 && rng.chance(0.34);
+                let k = [0.5, -0.25, 1.0, 3.0, -2.0][rng.usize(5)];
                 for i in 0..n {
                     for j in i..n {
-                        let x = if rng.chance(0.3) { 0.0 } else { rng.real() };
+                        let x = if cancelling { k * w[i] * w[j] } else if rng.chance(0.3) { 0.0 } else { rng.real() };
                         h[i][j] = 2.0 * x;
                         h[j][i] = 2.0 * x;
                         d2[i * n + j] = x;
@@ -247,6 +272,13 @@ impl Prop for C17 {
             };
             let (f, rf) = mk(rng);
             let (gg, rg) = mk(rng);
+            for (o, r) in [(&f, &rf), (&gg, &rg)] {
+                let _ = r;
+                let sum: f64 = o.dual2().iter().sum();
+                if o.dual2().iter().any(|x| *x != 0.0) && sum == 0.0 {
+                    ctx.class("product-rule:second-order-entries-cancel-to-zero");
+                }
+            }
             let mut req = pool.clone();
             rng.shuffle(&mut req);
             req.truncate(1 + rng.usize(5));
